@@ -73,7 +73,13 @@ class Builder:
     def ref(self, scope):
         """Name of a variable to reference at this position."""
         if self.cfg["naming"] == "pool":
-            return self.pick(self.cfg["pool"])
+            pool = self.cfg["pool"]
+            if scope.owner is not None and self.cfg.get("extra_probe") and self.chance(15):
+                return self.cfg["extra_probe"]
+            name = self.pick(pool)
+            if self.chance(12):
+                name += "." + self.pick(DATA_KEYS)
+            return name
         if scope.vars:
             return self.pick(scope.vars)
         return None
@@ -326,6 +332,8 @@ class Builder:
         ctx = {}
         for _ in range(self.integer(1, 3)):
             ctx[self.name("g")] = self.value()
+        if self.cfg.get("extra_probe"):
+            ctx[self.cfg["extra_probe"]] = "uu"
         self.cur = None
         self.budget = max(self.budget, 15)
         scope = Scope(list(ctx.keys()), owner=None)
